@@ -37,6 +37,9 @@ pub struct StreamsManagerBase<const MAX_STREAMS: usize> {
 }
 impl<const MAX_STREAMS: usize> StreamsManagerBase<MAX_STREAMS> {
     pub fn running_streams_count(&self) -> (r: u32) ensures r == self.used_streams_count@ { self.used_streams_count.load(Relaxed) }
+    /// `keep_stream_running(id)`: a racy snapshot of the listener's keep-running flag (ARBITRARY answer; the index bound is the obligation)
+    #[verifier::external_body]
+    pub fn keep_stream_running(&self, stream_id: u32) -> bool requires (stream_id as int) < MAX_STREAMS { unimplemented!() }
     /// requires the id in range (get_unchecked inside)
     #[verifier::external_body]
     pub fn wake_stream(&mut self, stream_id: u32)
@@ -145,6 +148,9 @@ pub struct StreamsManagerBase<const MAX_STREAMS: usize> {
     pub wakes: Ghost<Seq<nat>>,
 }
 impl<const MAX_STREAMS: usize> StreamsManagerBase<MAX_STREAMS> {
+    /// `keep_stream_running(id)`: a racy snapshot of the listener's keep-running flag (ARBITRARY answer; the index bound is the obligation)
+    #[verifier::external_body]
+    pub fn keep_stream_running(&self, stream_id: u32) -> bool requires (stream_id as int) < MAX_STREAMS { unimplemented!() }
     #[verifier::external_body]
     pub fn wake_stream(&mut self, stream_id: u32)
         requires (stream_id as int) < MAX_STREAMS, old(self).wakes@.len() == MAX_STREAMS,
